@@ -217,7 +217,14 @@ def readLine (st : St) (key : String) (mObs mFull : String) (specOf : Graph → 
 
 def parseNat (s : String) : Option Nat := s.toNat?
 
-def step (st : St) (ws : List String) : St × String × String × String :=
+/-- a trailing `@tag` (history hash) is not part of the operation -/
+def stripTag (ws : List String) : List String :=
+  match ws.getLast? with
+  | some w => if w.startsWith "@" then ws.dropLast else ws
+  | none => ws
+
+def step (st : St) (ws0 : List String) : St × String × String × String :=
+  let ws := stripTag ws0
   let noTxn := ok3 st "notxn"
   match ws with
   | ["open"] =>
